@@ -604,6 +604,29 @@ theorem dummy_subgraph_signature (key : String) (types resTys : List Ty) :
   rw [named_getElem? _ _ 0 i hi, named_getElem? _ _ 0 i hi]
   simp [hi]
 
+open SubgraphNames SubgraphNamesLemmas in
+/-- **All value names of the dummy are pairwise different** — inputs, outer value-infos and outputs, within and
+    *across* the three families (`__dummy_input{i}` / `__dummy_outer_output{j}` / `__dummy_output{k}`), for every
+    number of arguments and results: the dummy is a well-formed (single-assignment) graph whatever the sizes. -/
+theorem dummy_names_distinct (key : String) (argTys resTys : List α) :
+    let d := makeDummy key argTys resTys
+    (d.inputs.map (·.1) ++ d.valueInfos.map (·.1) ++ d.outputs.map (·.1)).Nodup := by
+  simp only [makeDummy, named_keys, Nat.zero_add]
+  rw [List.nodup_append, List.nodup_append]
+  refine ⟨⟨range_map_nodup _ (pyKey_inj _) _, range_map_nodup _ (pyKey_inj _) _, ?_⟩,
+    range_map_nodup _ (pyKey_inj _) _, ?_⟩
+  · intro a ha b hb
+    obtain ⟨i, _, rfl⟩ := List.mem_map.1 ha
+    obtain ⟨j, _, rfl⟩ := List.mem_map.1 hb
+    exact in_ne_outer i j
+  · intro a ha b hb
+    obtain ⟨j, _, rfl⟩ := List.mem_map.1 hb
+    rcases List.mem_append.1 ha with ha | ha
+    · obtain ⟨i, _, rfl⟩ := List.mem_map.1 ha
+      exact in_ne_output i j
+    · obtain ⟨i, _, rfl⟩ := List.mem_map.1 ha
+      exact (out_ne_outer j i).symm
+
 /-- Non-vacuity: the dummy of a Loop body with 3 arguments and 2 results. -/
 example :
     SubgraphNames.dummyOfSubgraph "body" [Ty.tensor 7 (some [.n 1]), .tensor 9 (some [.n 1]), (f32 [2]).ty]
